@@ -32,3 +32,40 @@ func TestDebugReplay(t *testing.T) {
 	res := ps.Replay(ps, rf.Trace, NewStats())
 	fmt.Printf("violation=%v cut=%v\n", res.Violation, res.Cut)
 }
+
+// TestDebugC08 replays a C08 replay file and dumps the differing registers.
+func TestDebugC08(t *testing.T) {
+	path := os.Getenv("VERIF_REPLAY")
+	if path == "" {
+		t.Skip()
+	}
+	raw, _ := os.ReadFile(path)
+	var rf ReplayFile
+	if err := json.Unmarshal(raw, &rf); err != nil {
+		t.Fatal(err)
+	}
+	var a struct {
+		Variant SchedSpec `json:"variant"`
+	}
+	_ = json.Unmarshal(rf.Trace.Aux, &a)
+	base := runWithSchedule(rf.Trace.Config, rf.Trace.Steps, SchedSpec{Mode: "none"}, NewStats(), true)
+	other := runWithSchedule(rf.Trace.Config, rf.Trace.Steps, a.Variant, NewStats(), true)
+	fmt.Println("base viol:", base.viol, "other viol:", other.viol)
+	for id, b := range base.final {
+		o := other.final[id]
+		if string(b) != string(o) {
+			fmt.Printf("register %s differs:\n base  %x\n other %x\n", id, b, o)
+			if s, err := libDecode(id, b); err == nil {
+				fmt.Println(" base :", s)
+			}
+			if s, err := libDecode(id, o); err == nil {
+				fmt.Println(" other:", s)
+			}
+		}
+	}
+	for id := range other.final {
+		if _, ok := base.final[id]; !ok {
+			fmt.Printf("register %s only in other\n", id)
+		}
+	}
+}
